@@ -1,14 +1,17 @@
 (* C07 — Keep-alive connections keep request boundaries.  Pinned statements.
    [serve_conn] is the model of handle_connection over the inbound segments (read loop, framing,
-   body readers over the model of BufReader, handlers, drain on drop, keep-alive decision);
-   [spec_conn] interprets the concatenated bytes sequentially, one request after the other, with the
-   body located by the strict recognisers.  One recorded finding delimits the theorem:
-     known_F20c  (chunked body whose end shares a segment with the next request: read-ahead loses bytes)
+   body readers over the model of BufReader, handlers, drain on drop, carry of the bytes read beyond the body,
+   keep-alive decision); [spec_conn] interprets the concatenated bytes sequentially, one request after the
+   other, with the body located by the strict recognisers.
+   Finding F20c (a chunked body whose end shares a segment with the next request: the read-ahead lost bytes) is
+   repaired: when the body reader is dropped it hands back the bytes it holds beyond the end of the body, and the
+   next read_request starts with them.  The transcript theorem now holds for EVERY segmentation
+   ([C07_transcript_any]); the lock-step statement [C07_transcript] is a corollary.
    Finding F21 (a malformed / truncated body that is answered without the error reaching the server, the
-   connection being kept) is repaired: the failed discard of the body closes the connection, and the theorem no
-   longer excludes those histories. *)
+   connection being kept) is repaired: the failed discard of the body closes the connection, and the theorem does
+   not exclude those histories. *)
 From KV Require Import Lib.Bytes Model.Headers Model.Parser Model.Body Model.Server
-  Spec.HeaderStore Spec.HttpGrammar Spec.ChunkedSpec Spec.Framing Spec.ConnSpec Spec.ConnKnown Proofs.ServerConn.
+  Spec.HeaderStore Spec.HttpGrammar Spec.ChunkedSpec Spec.Framing Spec.ConnSpec Spec.ConnKnown Proofs.ServerConn Proofs.ServerConnAny.
 
 (* one request, delivered in segments of its own, followed by whatever comes later: exactly one
    set of responses computed from that head and body, and the server's position afterwards is
@@ -28,17 +31,45 @@ Theorem C07_one_request : forall a N ka reqsegs later r raw,
 Proof. exact one_request_boundary_nonempty. Qed.
 Print Assumptions C07_one_request.
 
-(* the whole connection: every lock-step history gives exactly the sequential transcript *)
+(* the same for a request at the front of an ARBITRARILY segmented stream (its last bytes may share a segment with
+   the bytes that follow it; the body may be followed by anything): the responses and the decision are the
+   specification's, and what the server goes on with - the bytes carried over from the body reader first, then the
+   segments not yet read - is exactly the bytes that follow the body *)
+Theorem C07_one_request_any : forall a N ka segs r raw payload rest,
+  parse_request (firstn N (concat segs)) = Ok r ->
+  raw = raw_fields (firstn N (concat segs)) ->
+  rfc_framing raw <> FReject ->
+  view_body (rfc_framing raw) (skipn (q_offset r) (concat segs)) = BodyOk payload rest ->
+  let o := handle_one_request a N ka segs in
+  let '(resps, keep, _) := spec_one a r raw (skipn (q_offset r) (concat segs)) in
+  o_resps o = resps /\ (o_ok o = true -> o_keep o = (keep && ka && negb (existsb rs_close resps))) /\
+  (o_ok o = false -> keep = false) /\ o_eof o = false /\
+  concat (o_rest o) = rest.
+Proof. exact one_request_any. Qed.
+Print Assumptions C07_one_request_any.
+
+(* the whole connection: EVERY history, however its bytes are segmented, gives exactly the sequential transcript.
+   No side condition on the segments: a read of the model skips a segment without bytes ([stream_read]), so such
+   segments change nothing. *)
+Theorem C07_transcript_any : forall a N segs,
+  0 < N ->                                         (* a head limit of zero bytes answers 431 before reading anything *)
+  snd (spec_conn a N (concat segs)) <> EUnspec ->
+  c_resps (serve_conn a N segs) = fst (spec_conn a N (concat segs)) /\
+  (c_waiting (serve_conn a N segs) = true <-> snd (spec_conn a N (concat segs)) = EWaiting).
+Proof. exact conn_transcript_any. Qed.
+Print Assumptions C07_transcript_any.
+
+(* in particular every lock-step history (no segment carries bytes of two requests) *)
 Theorem C07_transcript : forall a N segs,
   0 < N ->                                         (* a head limit of zero bytes answers 431 before reading anything *)
   lockstep a N segs = true ->
   snd (spec_conn a N (concat segs)) <> EUnspec ->
   c_resps (serve_conn a N segs) = fst (spec_conn a N (concat segs)) /\
   (c_waiting (serve_conn a N segs) = true <-> snd (spec_conn a N (concat segs)) = EWaiting).
-Proof. exact conn_transcript_pos. Qed.
+Proof. intros a N segs HN _. exact (C07_transcript_any a N segs HN). Qed.
 Print Assumptions C07_transcript.
 
-(* ---- the recorded finding F20c and the repaired F21, as witnesses on the faithful model (see known_findings.json) ---- *)
+(* ---- the repaired findings F20c and F21, as witnesses on the faithful model (see known_findings.json) ---- *)
 Definition hold_app : app :=
   {| behaviour_of := fun _ => BHold; hook_of := fun _ => HProceed; describe := fun _ b => b |}.
 Definition none_app : app :=
@@ -46,17 +77,24 @@ Definition none_app : app :=
 Definition crlf2 : bytes := [x0d; x0a; x0d; x0a].
 Definition get_req : bytes := bs "GET /next HTTP/1.1" ++ crlf2.
 
-(* F20c: the rest of a chunked body and the next request arrive in one segment after the handler
-   has already answered: the model (like the code) loses the next request *)
+(* F20c (repaired): the rest of a chunked body and the next request arrive in one segment after the handler
+   has already answered.  The chunked reader's read-ahead takes the next request from the connection together with
+   the end of the body; the model (like the repaired code) carries those bytes over: both requests are answered,
+   the transcript is the specification's, and the connection is waiting for more input.  (The history is not
+   lock-step: it is covered by C07_transcript_any, not by C07_transcript.) *)
 Definition f20c_segs : list bytes :=
   [ bs "POST /hold HTTP/1.1" ++ [x0d; x0a] ++ bs "Transfer-Encoding: chunked" ++ crlf2;
     bs "5" ++ [x0d; x0a] ++ bs "hello" ++ [x0d; x0a] ++ bs "0" ++ crlf2 ++ get_req ].
-Example C07_refuted_F20c :
-  known_F20c hold_app 4096 f20c_segs = true /\ lockstep hold_app 4096 f20c_segs = false /\
-  length (c_resps (serve_conn hold_app 4096 f20c_segs)) = 1 /\
-  length (fst (spec_conn hold_app 4096 (concat f20c_segs))) = 2.
+Example C07_F20c_repaired :
+  lockstep hold_app 4096 f20c_segs = false /\
+  c_resps (serve_conn hold_app 4096 f20c_segs) = fst (spec_conn hold_app 4096 (concat f20c_segs)) /\
+  length (c_resps (serve_conn hold_app 4096 f20c_segs)) = 2 /\
+  c_requests (serve_conn hold_app 4096 f20c_segs) = 2 /\ c_ok (serve_conn hold_app 4096 f20c_segs) = true /\
+  c_waiting (serve_conn hold_app 4096 f20c_segs) = true /\
+  snd (spec_conn hold_app 4096 (concat f20c_segs)) = EWaiting.
 Proof. vm_compute. repeat split. Qed.
-(* the same history with a fixed-length body is handled correctly (Read::take keeps the read-ahead inside the body) *)
+(* the same history with a fixed-length body (Read::take keeps the read-ahead inside the body; the bytes behind the body
+   come back with the unread part of the leftover slice or stay on the connection) *)
 Definition fixed_segs : list bytes :=
   [ bs "POST /hold HTTP/1.1" ++ [x0d; x0a] ++ bs "Content-Length: 5" ++ crlf2; bs "hello" ++ get_req ].
 Example C07_fixed_straddle_ok :
@@ -99,4 +137,21 @@ Definition ok_segs : list bytes :=
 Example C07_ex_lockstep :
   lockstep none_app 4096 ok_segs = true /\
   length (c_resps (serve_conn none_app 4096 ok_segs)) = 3.
+Proof. vm_compute. repeat split. Qed.
+
+(* the same three requests pipelined in ONE segment, and cut into segments at places that are not request
+   boundaries: the hypotheses of C07_transcript_any hold, lock-step does not *)
+Definition pipelined_segs : list bytes := [ concat ok_segs ].
+Definition odd_segs : list bytes :=
+  [ firstn 30 (concat ok_segs); firstn 40 (skipn 30 (concat ok_segs)); []; skipn 70 (concat ok_segs) ].
+Example C07_ex_pipelined :
+  lockstep none_app 4096 pipelined_segs = false /\
+  c_resps (serve_conn none_app 4096 pipelined_segs) = fst (spec_conn none_app 4096 (concat pipelined_segs)) /\
+  length (c_resps (serve_conn none_app 4096 pipelined_segs)) = 3 /\
+  concat odd_segs = concat ok_segs /\ lockstep none_app 4096 odd_segs = false /\
+  c_resps (serve_conn none_app 4096 odd_segs) = fst (spec_conn none_app 4096 (concat odd_segs)) /\
+  length (c_resps (serve_conn none_app 4096 odd_segs)) = 3 /\
+  (* a head limit shorter than what is carried over: the rest of the carry stays in front of the stream *)
+  c_resps (serve_conn none_app 50 pipelined_segs) = fst (spec_conn none_app 50 (concat pipelined_segs)) /\
+  length (c_resps (serve_conn none_app 50 pipelined_segs)) = 3.
 Proof. vm_compute. repeat split. Qed.
